@@ -10,7 +10,7 @@ From Sylt Require Import Pres.Frag.
 From Sylt Require Import Pres.SimDefs Pres.SimOps Pres.SimVals.
 From Sylt Require Import Pres.SimExpr Pres.LowerShape Pres.SimSteps Pres.SimExprProofs.
 From Sylt Require Import Pres.LuaLoop.
-From Sylt Require Import Pres.NoExit Pres.NoRet Pres.SimStmt.
+From Sylt Require Import Pres.NoExit Pres.SimStmt.
 From Sylt Require Import Lua.LuaAst Lua.LuaMap Lua.LuaNum Lua.LuaProofs Lua.LuaCore.
 Import ListNotations.
 Local Open Scope N_scope.
@@ -318,14 +318,13 @@ Proof.
   { intros g Hg. unfold ec. apply lookup_app_notin. rewrite Hmf. intros Hin. destruct (Hpall g Hin) as (Hn & _ & Hnp & _).
     destruct Hg as [Hg|Hg]; [exact (Hn Hg) | exact (Hnp Hg)]. }
   destruct (SyltSem.block_value n ec (fd_body d) st1) as [rb st2] eqn:Hbv.
-  pose proof (proj2 (proj2 (proj2 (NR_all pv sv bound (fd_fl d) n))) (fd_k d) _ (fd_scout d) ec (fd_body d) st1 rb st2
-                    (fs_frag _ _ _ _ _ Hst) Hbv) as Hnr.
-  assert (Hintb : interesting rb /\ match rb with SyltSem.RAbrupt _ => False | _ => True end).
-  { destruct rb as [v|o|[| |v]]; cbn [noret] in Hnr; try contradiction.
+  assert (Hintb : interesting rb /\ match rb with SyltSem.RAbrupt SyltSem.CBreak | SyltSem.RAbrupt SyltSem.CContinue => False | _ => True end).
+  { destruct rb as [v|o|[| |v]].
     - split; exact I.
     - inversion Hap; subst. split; [exact Hint | exact I].
     - inversion Hap; subst. destruct Hint.
-    - inversion Hap; subst. destruct Hint. }
+    - inversion Hap; subst. destruct Hint.
+    - split; exact I. }
   destruct Hintb as [Hintb Hnab].
   assert (Hctx : ctx_ok bound (fd_lut d) [] E1 (fd_c d) (fd_c' d)).
   { constructor; [apply (fs_bound _ _ _ _ _ Hst) | intros t Ht; apply (fs_lut _ _ _ _ _ Hst); exact Ht | intros t [] |].
@@ -337,7 +336,20 @@ Proof.
   pose proof Hs as (_ & _ & _ & Hnl). subst b.
   assert (Hbl' : bind_locals (c_env (mkClosure (fd_Ef d) (map fmt_var (fd_params d)) (fbody u d)))
                              (c_params (mkClosure (fd_Ef d) (map fmt_var (fd_params d)) (fbody u d))) lvs stL = (E1, stL1)) by exact Hbl.
-  destruct rb as [v|o|cc]; [| |destruct Hnab].
+  destruct rb as [v|o|[| |v]]; [| |destruct Hnab|destruct Hnab|].
+  3: { (* an early return *)
+    inversion Hap; subst r st'. clear Hap.
+    destruct Hpost as (E' & stL' & lv & Hx & Hvl & Hrel2 & Hnc2).
+    assert (Hback : SimDefs.rel pv sv bound u fl W sc e st2 E stL' /\ call_frame bound E stL stL').
+    { apply (caller_back d sc e st E stL _ ec E1 st2 stL' Hrel Hd Hvis Hrel2).
+      - intros g Hg. apply in_or_app. right. exact Hg.
+      - exact Hlkf.
+      - intros g Hg. apply Hu1. intros Hin. destruct (Hpall g Hin) as (Hn & _). exact (Hn Hg).
+      - lia. }
+    destruct Hback as [Hrelc Hcf].
+    exists [lv], stL'. splits; [| exact Hvl | exact Hrelc | exact Hcf].
+    eapply (Call_closure (fd_fid d) _ lvs stL E1 stL1 E' [lv] stL' HcloL Hbl').
+    cbn [c_body]. apply ExecBlock_of_ExecS; [exact Hx | exact Hnl | intros []]. }
   - (* the body ends: back in the caller *)
     inversion Hap; subst r st'. clear Hap.
     destruct Hpost as (E' & sg & stL' & sc2 & e2 & Hx & Hsg & Hrel2 & Hse & Hinc2 & Hk & Hnc2).
